@@ -327,7 +327,7 @@ func (u *Unit) heapGet(v heapView, name string, sort Sort) T {
 		return t
 	}
 	ep := v.epoch
-	if u.entryEpoch > 0 && u.immutableHeap(name) {
+	if u.entryEpoch > 0 && strings.HasPrefix(name, "F!") && u.immutableHeap(name) {
 		// a heap that re-entrant code cannot change and that this path has not touched yet
 		// still has its value from the function's entry, whatever was havocked in between
 		ep = u.entryEpoch
